@@ -5,6 +5,8 @@ package htx
 import (
 	"math/big"
 
+	sdk "github.com/cosmos/cosmos-sdk/types"
+
 	"github.com/ethereum/go-ethereum/common"
 	ethtypes "github.com/ethereum/go-ethereum/core/types"
 	ethcrypto "github.com/ethereum/go-ethereum/crypto"
@@ -39,9 +41,10 @@ func nativeSignedMsg(t *Tx) *evmtypes.MsgEthereumTx {
 	if err != nil {
 		panic(err)
 	}
-	msg := &evmtypes.MsgEthereumTx{}
-	if err := msg.FromEthereumTx(tx, SenderAddr); err != nil {
+	// like MsgEthereumTx.FromEthereumTx but without its validation (an invalid transaction must reach ValidateBasic)
+	bz, err := tx.MarshalBinary()
+	if err != nil {
 		panic(err)
 	}
-	return msg
+	return &evmtypes.MsgEthereumTx{MarshalledTx: bz, From: sdk.AccAddress(SenderAddr.Bytes()).String()}
 }
